@@ -220,7 +220,6 @@ func (c *Channel) JoinPresence(ctx context.Context, p stanza.Presence, opt ...Op
 	if p.ID == "" {
 		p.ID = attr.RandomID()
 	}
-	p.To = c.addr
 
 	// Drop the hand-off entry of an earlier call that returned without being
 	// answered by a self-presence (error reply, canceled context): it would
@@ -235,22 +234,37 @@ func (c *Channel) JoinPresence(ctx context.Context, p stanza.Presence, opt ...Op
 		o(&conf)
 	}
 	c.pass = conf.password
+	// The occupant address we ask for.
+	// Until the room grants it we keep the address that we have.
+	c.client.managedM.Lock()
+	reqAddr := c.addr
+	c.client.managedM.Unlock()
 	if conf.newNick != "" {
-		newAddr, err := c.addr.WithResource(conf.newNick)
+		newAddr, err := reqAddr.WithResource(conf.newNick)
 		if err != nil {
 			return err
 		}
-		c.addr = newAddr
+		reqAddr = newAddr
 	}
+	p.To = reqAddr
 
 	// Make sure the presence handler knows about the room (again) if we are
-	// joining after having left it.
+	// joining after having left it, and about the address we are asking for.
 	c.client.managedM.Lock()
 	if c.client.managed == nil {
 		c.client.managed = make(map[string]*Channel)
 	}
-	c.client.managed[c.addr.String()] = c
+	c.client.managed[reqAddr.String()] = c
 	c.client.managedM.Unlock()
+	defer func() {
+		// If the room did not give us the address that we asked for it is not
+		// ours: its presence is that of whoever has that nickname.
+		c.client.managedM.Lock()
+		if !c.addr.Equal(reqAddr) && c.client.managed[reqAddr.String()] == c {
+			delete(c.client.managed, reqAddr.String())
+		}
+		c.client.managedM.Unlock()
+	}()
 
 	ctx, cancel := context.WithCancel(ctx)
 	defer cancel()
@@ -308,8 +322,8 @@ func (c *Channel) JoinPresence(ctx context.Context, p stanza.Presence, opt ...Op
 	select {
 	case err := <-errChan:
 		return err
-	case roomAddr := <-joinChan:
-		c.addr = roomAddr
+	case <-joinChan:
+		// The presence handler has recorded the address that the room gave us.
 	case <-ctx.Done():
 		return ctx.Err()
 	}
